@@ -19,8 +19,20 @@ from harness.tlaval import Raw, mc_module, tla
 
 PID = 'C13'
 
-ATOMS = [{'p': 'val', 'o': 2, 'f': 1}, {'p': 'val', 'o': 1, 'f': 2}, {'p': 'val', 'o': 3, 'f': 2}]
-NONE, MISSING = {'p': 'none', 'o': 0, 'f': 0}, {'p': 'missing', 'o': 0, 'f': 0}
+# o: rank under cmp, f: rank under case folding, u: rank under the user's comparison function (namespace name cf)
+ATOMS = [{'p': 'val', 'o': 2, 'f': 1, 'u': 3}, {'p': 'val', 'o': 1, 'f': 2, 'u': 2}, {'p': 'val', 'o': 3, 'f': 2, 'u': 1}]
+NONE, MISSING = {'p': 'none', 'o': 0, 'f': 0, 'u': 0}, {'p': 'missing', 'o': 0, 'f': 0, 'u': 0}
+URANK = {2: 3, 1: 2, 3: 1}          # o -> u
+
+
+def user_cmp(typ):
+    """the comparison function the namespace supplies under the name cf: orders the concrete keys by their u rank"""
+    inv = {keyval(a, typ): a['u'] for a in ATOMS}
+
+    def cf(a, b):
+        ra, rb = inv[a], inv[b]
+        return (ra > rb) - (ra < rb)
+    return cf
 KEYS = [NONE, MISSING] + ATOMS
 STR = {(2, 1): 'a', (1, 2): 'B', (3, 2): 'b'}
 
@@ -46,7 +58,7 @@ def lists(nkeys, maxlen, rng, cap):
 def specs1():
     f = lambda a, fn, d: {'a': a, 'fn': fn, 'dir': d}  # noqa
     return [[f(1, '', 1)], [f(1, 'cmp', 1)], [f(1, 'cmp', -1)], [f(1, 'nocase', 1)], [f(1, 'nocase', -1)],
-            [f(0, '', 1)], []]
+            [f(0, '', 1)], [], [f(1, 'user', 1)], [f(1, 'user', -1)], [f(1, 'locale', 1)], [f(1, 'locale_nocase', -1)]]
 
 
 def specs2():
@@ -56,6 +68,8 @@ def specs2():
         if fn2 == '' and d2 == -1:
             continue
         out.append([f(1, fn1, d1), f(2, fn2, d2)])
+    out += [[f(1, 'user', 1), f(2, 'cmp', -1)], [f(1, 'cmp', 1), f(2, 'user', 1)], [f(1, 'user', -1), f(2, 'user', 1)],
+            [f(1, 'locale', -1), f(2, 'nocase', 1)], [f(2, 'locale_nocase', 1), f(1, 'user', 1)]]
     return out
 
 
@@ -100,9 +114,13 @@ def keyval(k, typ):
 
 
 def types_for(b):
-    has_nocase = any(s['fn'] == 'nocase' for s in b['spec'])
-    if has_nocase:
+    fns = {s['fn'] for s in b['spec']}
+    if 'user' in fns and any(k['p'] != 'val' for e in b['l'] for k in e['k']):
+        return []          # a function from the namespace is not expected to cope with the placeholder of a missing key
+    if fns & {'nocase', 'locale', 'locale_nocase'}:
         return ['str']
+    if 'user' in fns:
+        return ['str', 'int']
     ts = ['str', 'int', 'float', 'date', 'decimal', 'callable']
     used = {k['o'] for e in b['l'] for k in e['k'] if k['p'] == 'val'}
     if used <= {1, 2} and len(used) == 2 or used <= {2, 3} and False:
@@ -146,7 +164,7 @@ def sort_attr(spec):
     for s in spec:
         p = 'k%d' % s['a']
         if s['fn'] or s['dir'] == -1:
-            p += '/' + (s['fn'] or 'cmp')
+            p += '/' + ({'user': 'cf'}.get(s['fn'], s['fn']) or 'cmp')
             if s['dir'] == -1:
                 p += '/desc'
         parts.append(p)
@@ -189,7 +207,7 @@ def observe(b, typ, mapping, variant):
         body = '<dtml-var id>,'
     src = '<dtml-in seq%s>%s</dtml-in>' % (opts, body)
     try:
-        out = tmpl(src)(seq=seq, sk=sa)
+        out = tmpl(src)(seq=seq, sk=sa, cf=user_cmp(typ))
     except Exception as e:  # noqa
         return {'ok': 0, 'order': [], 'err': '%s: %s' % (type(e).__name__, str(e)[:80]), 'src': src, 'typ': typ}
     toks = [x for x in out.split(',') if x]
@@ -301,14 +319,15 @@ def main(tier):
            'traces_validated_against_impl': V.counters.get('p1_conform', 0) + n,
            'behaviours_exported': len(exported), 'renderings': nobs, 'exhaustive': True,
            'rule': 'all lists up to the tier length over keys {None, missing, a, B, b} (single key) and pairs of such keys '
-                   '(double key) x specs {plain, cmp, nocase} x {asc, desc} x reverse; concretised as str / int / float / '
+                   '(double key) x specs {plain, cmp, nocase, locale, locale_nocase, a comparison function from the namespace} x {asc, desc} x reverse; concretised as str / int / float / '
                    'bool / date / Decimal / callable keys, objects and mappings, sort= and sort_expr=, batched',
            'samples': [{'list': exported[0]['l'], 'spec': exported[0]['spec'], 'order': exported[0]['order']},
                        {'list': exported[-1]['l'], 'spec': exported[-1]['spec'], 'rev': exported[-1]['rev'],
                         'order': exported[-1]['order']}]}
     return V.finish(cov, assumptions=['keys of one sort field have one type; mutual order of elements whose deciding key is '
                                       'None/missing on both sides is unspecified (DESIGN C13)',
-                                      'under /desc missing keys come last (the inverted order)'])
+                                      'under /desc missing keys come last (the inverted order)',
+                                      'locale functions are exercised in the C locale (strcoll = code point order)'])
 
 
 def replay_file(path):
